@@ -5,13 +5,14 @@
       the limit are rejected before anything is allocated"
 
    as a MONITOR: a state machine over (operation, answer) pairs.  [mp4_mstep B m o a = None] means: operation o is
-   not allowed in monitor state m.  B is the allocation bound max(max_metadata_size, 1024).
+   not allowed in monitor state m.  B is the bound max(max_metadata_size, 1024) of a payload allocation, F the bound
+   2 * (max_metadata_size + 1024 + 64) of the allocation of the returned metadata.
 
    Per top-level box:   fill_buf?  stream_position  <header: reads of 4, 4, [8], [16] bytes>
                         then [stream_len stream_position]            (a box that extends to the end of the file)
                         then EITHER skip n                           (the payload is passed over, never read)
                              OR     alloc n (n <= B)  read_exact n   (the payload is read into memory: ftyp, moov)
-   After the last box:  stream_position  stream_len  [alloc m]       (m: the returned metadata; finding D6: unbounded)
+   After the last box:  stream_position  stream_len  [alloc m]       (m <= F: the returned metadata)
    An operation that answers an error ends the run.  Definitions only. *)
 From Coq Require Import List NArith Bool.
 From MS Require Import Base.Bytes Base.Outcome Base.Prog.
@@ -53,7 +54,7 @@ Definition body_step (B : N) (after_len : bool) (o : op) (a : resp) : option mst
   | _ => None
   end.
 
-Definition mp4_mstep (B : N) (m : mstate) (o : op) (a : resp) : option mstate :=
+Definition mp4_mstep (B F : N) (m : mstate) (o : op) (a : resp) : option mstate :=
   match m with
   | MHead => match o with OFillEmpty => on_bool o a (fun b => if b then MEnd 0 else MIter) | _ => None end
   | MIter => match o with OPos => on_num o a (fun start => MHdr start 0) | _ => None end
@@ -69,7 +70,7 @@ Definition mp4_mstep (B : N) (m : mstate) (o : op) (a : resp) : option mstate :=
       match o with
       | OPos => if k =? 0 then on_num o a (fun _ => MEnd 1) else None
       | OLen => if k =? 1 then on_num o a (fun _ => MEnd 2) else None
-      | OAlloc _ => if k =? 2 then Some MDone else None
+      | OAlloc n => if (k =? 2) && (n <=? F) then Some MDone else None
       | _ => None
       end
   | MErr _ _ | MDone => None
@@ -104,6 +105,6 @@ Definition payload_read (B : N) (m : mstate) (n : N) : Prop := m = MAlloc n /\ n
 
 Definition read_confined (B : N) (m : mstate) (pos : N) (o : op) (a : resp) : Prop :=
   match o with OReadExact n => header_read m pos n \/ payload_read B m n | OReadUpTo _ => False | _ => True end.
-(* every allocation is bounded by B, except the one for the returned metadata (monitor state MEnd 2) *)
-Definition alloc_bounded (B : N) (m : mstate) (pos : N) (o : op) (a : resp) : Prop :=
-  match o with OAlloc n => n <= B \/ m = MEnd 2 | _ => True end.
+(* every allocation is bounded by B, except the one for the returned metadata (monitor state MEnd 2), bounded by F *)
+Definition alloc_bounded (B F : N) (m : mstate) (pos : N) (o : op) (a : resp) : Prop :=
+  match o with OAlloc n => n <= B \/ (m = MEnd 2 /\ n <= F) | _ => True end.
